@@ -102,7 +102,7 @@ impl<Req, Res, E> AdaptiveService<Req, Res, E> {
     pub fn poll_ready(&mut self, cx: &mut Context, Tracked(tr): Tracked<&mut Trace<Req, Res, E>>) -> (r: Poll<Result<(), AdaptiveError<E>>>)
         requires old(tr).fresh(),
         ensures
-            final(tr).obs_inflight is Some && final(tr).obs_limit is Some,   // #consults_counter_and_algorithm
+            final(tr).obs_inflight is Some && final(tr).obs_limit is Some,   // #consults_the_shared_counter_and_the_algorithm_limit [C13]
             final(tr).incs == 0 && final(tr).decs == 0 && final(tr).unguarded == 0,   // #observing_readiness_does_not_count_a_call [C13]
             final(tr).obs_inflight->0 >= final(tr).obs_limit->0 ==> r is Pending && final(self).inner == old(self).inner,   // #refuses_readiness_at_the_limit_without_touching_inner [C13]
             final(tr).obs_inflight->0 < final(tr).obs_limit->0 ==> final(self).inner.polls@ == old(self).inner.polls@ + 1 && (r is Pending ==> !final(self).inner.ready@ || old(self).inner.ready@),   // #never_refuses_below_the_limit_on_its_own [C13]
